@@ -108,6 +108,7 @@ def _E(depth):
         st.tuples(S, sub).map(lambda t: ["mul", t[0], t[1]]),
         st.tuples(sub, S_nonzero).map(lambda t: ["div", t[0], t[1]]),
         st.tuples(binop, sub).map(lambda t: ["same", t[0], t[1]]),          # x (op) x with the SAME object twice
+        st.tuples(st.sampled_from(["iadd", "isub"]), sub, sub).map(lambda t: [t[0], t[1], t[2]]),   # r = a; r += b  (a must not change)
         sub.map(lambda a: ["sub", a, a]),
         st.tuples(psub, psub).map(lambda t: ["sub", ["mul", t[0], t[1]], ["mul", t[1], t[0]]]),  # mirrored
     )
@@ -178,6 +179,7 @@ def ref_eval(t, pv, ev):
         return k, (v + v if t[1] == "add" else v - v), 2 * m
     ka, va, ma = ref_eval(t[1], pv, ev)
     kb, vb, mb = ref_eval(t[2], pv, ev)
+    op = {"iadd": "add", "isub": "sub"}.get(op, op)
     if op == "add":
         return ("P" if ka == "P" else "E"), va + vb, ma + mb
     if op == "sub":
@@ -231,6 +233,7 @@ def ref_sym(t):
         return k, plus(d, d, 1.0 if t[1] == "add" else -1.0)
     ka, da = ref_sym(t[1])
     kb, db = ref_sym(t[2])
+    op = {"iadd": "add", "isub": "sub"}.get(op, op)
     if op in ("add", "sub"):
         sign = 1.0 if op == "add" else -1.0
         if ka == "P":
@@ -340,6 +343,7 @@ def _kind(t):
     if op == "same":
         return _kind(t[2])
     ka, kb = _kind(t[1]), _kind(t[2])
+    op = {"iadd": "add", "isub": "sub"}.get(op, op)
     if op == "mul":
         if ka == "P" and kb == "P":
             return "E"
@@ -393,6 +397,12 @@ class Builder(object):
             res = -operands[0]
         elif op == "pow2":
             res = operands[0] ** 2
+        elif op == "iadd":
+            res = operands[0]
+            res += operands[1]
+        elif op == "isub":
+            res = operands[0]
+            res -= operands[1]
         elif op == "add":
             res = operands[0] + operands[1]
         elif op == "sub":
